@@ -64,6 +64,14 @@ def run(ctx):
         ctx.notes.append("design d%d not usable: %s" % (i, str(f)[:300]))
     nontrivial = set()
     judge(ctx, cases, nontrivial, hc.Explainer(ctx, "res", 1, 1))
+    # two result attributes in the same location (two cookies, two headers), and in thorough random pairs
+    allv = hc.gen_vectors(ctx, "res", 1, 1, label="Gen res 1x1 (for pairs)")
+    pairs = hc.combine_cases(ctx, allv, 80 if quick else 1500, ctx.seed, fam="res", mode="sameloc")
+    if not quick:
+        pairs += hc.combine_cases(ctx, allv, 3000, ctx.seed + 1, fam="res")
+    casesp, plp = hc.run_family(ctx, "res", pairs)
+    judge(ctx, casesp, nontrivial, hc.Explainer(ctx, "res", 1, 2))
+    ctx.cov["pairs"] = len(casesp)
     ctx.cov["distinct_nontrivial"] = len(nontrivial)
     ctx.cov["designs"] = len(pl.designs)
     ctx.cov["methods_set_aside_uncompilable"] = len(pl.bad_methods)
